@@ -30,9 +30,11 @@ PREFIXES = ["", "typedef int T; ", "void f(void) { ", "typedef int T; void f(int
 FILES = (FILE, "g.h")     # the name passed to parse() and the one the linemarker token sets
 
 
-def good_prefix(m):
-    """'file:line:column: ' or 'file: ' with a real file name (not None / ?)"""
-    for f in FILES:
+def good_prefix(m, text=""):
+    """'file:line:column: ' or 'file: ' with a real file name (not None / ?): the name passed to parse()
+    or one that a #line / linemarker directive of the text sets"""
+    named = re.findall(r'(?m)^[ \t]*#[^\n"]*"([^"\n]*)"', text) if '"' in text and "#" in text else []
+    for f in list(FILES) + named:
         if re.match("^" + re.escape(f) + r":\d+:\d+: ", m) or m.startswith(f + ": "):
             return True
     return False
@@ -44,20 +46,20 @@ def verdict_py(text):
         return "good"
     if r[0] == "PE":
         m = r[1]
-        if good_prefix(m):
+        if good_prefix(m, text):
             return "good"
         return "badprefix:" + m[:60]
     return "crash:" + r[1] + ":" + type(r[2]).__name__ + ": " + str(r[2])[:80]
 
 
-def verdict_model(line):
+def verdict_model(line, text=""):
     f = line.split("\t")
     if f[0] in ("OK", "FUEL"):
         return "good"
     if f[0] == "PE":
         from ..common import unesc
         m = unesc(f[1])
-        if good_prefix(m):
+        if good_prefix(m, text):
             return "good"
         return "badprefix"
     return "crash:" + f[1]
@@ -80,7 +82,7 @@ def check_batch(ctx, texts, label):
         if v != "good":
             ctx.violation("%s: parse() escaped with %s on %r" % (label, v, t[:100]), {"kind": "text", "text": t}, classify)
         elif md is not None:
-            mv = verdict_model(md[i])
+            mv = verdict_model(md[i], t)
             if mv.split(":")[0] != "good":
                 # the proved model says the code should have crashed here but it did not: correspondence broken
                 ctx.violation("%s: model predicts %s but the real parser is fine on %r" % (label, mv, t[:100]), {"kind": "text", "text": t}, classify)
@@ -141,6 +143,18 @@ def run(ctx):
         texts.extend(mutants(rng, corpus.lex_tokens(p), per))
     ctx.rule("%d token-level mutants (delete/insert/replace/swap/duplicate/truncate) of the %d accepted corpus programs" % (len(texts), len(progs)))
     check_batch(ctx, texts, "mutants")
+    # end of input at every character position: unterminated last lines of directives, literals, comments
+    SEEDS = ["int x;\n#pragma pack(1)\nint y;\n", "#pragma once\n", "# pragma  omp parallel for\nint a;", "void f(void) {\n#pragma omp barrier\n x; }\n",
+             "#line 7 \"g.h\"\nint x;\n", "# 3 \"g.h\" 1 3\nint y;\n", "void f(void) { _Pragma(\"omp x\") y; }\n", "#pragma\nint z;\n",
+             "char *s = \"a\\n\" L\"b\";\n", "int c = 'x'; /* c */ // d\nint e;\n", "#pragma a\n#pragma b\n# 5\n", "int x = 0x1.8p+3f, y = 1e-5L;\n",
+             "#line 2\n#pragma p q r\n", "\t#  pragma\tweak f\n"]
+    texts = sorted({sd[:i] for sd in SEEDS for i in range(len(sd) + 1)})
+    cut = 6 if quick else 60
+    for p in progs:
+        for _ in range(cut):
+            texts.append(p[:rng.randrange(len(p) + 1)])
+    ctx.rule("%d character-level truncations: every prefix of %d directive / literal / comment seeds (input ending inside or right after a #pragma, #line, linemarker, _Pragma, string, character constant, comment, with and without the final newline) and %d random cut points in each corpus program" % (len(texts), len(SEEDS), cut))
+    check_batch(ctx, texts, "truncations")
     # raw character noise
     noise_alpha = "ab1 \n\t(){}[];,*=+-<>!&|^~?:.#\"'\\/%@$`_xuUlL0"
     texts = ["".join(rng.choice(noise_alpha) for _ in range(rng.choice([1, 2, 3, 5, 8, 13, 40]))) for _ in range(2000 if quick else 50000)]
